@@ -33,6 +33,11 @@ CHECKS = {
    text="Crossing detectors on generated pairs of streams with touches, zero runs, sign alternation, +-1 ulp differences and both constructors, decided on the computed difference; reversal detectors exhaustively for all (left,right) in 1..=4^2 over all short ternary streams, by proptest for random (left,right) up to the limit with plateaus/equal peaks, and on streams of 3000 (thorough 70000) steps, far beyond PeriodType::MAX.",
    note="Trusted: the newest-wins arg-extremum reference (prehistory = first input). Exact comparison of Actions.",
    ref="DESIGN.md §5 C14"),
+ "C15": dict(
+   technique="metamorphic PBT (affine, hull, superposition, constant) + exhaustive impulse responses for every length against closed-form weight profiles",
+   text="For all 15 MA kinds plus Conv and VWMA: generated streams with generated a (both signs) and b for affine equivariance, hull containment without conditioning exemption for non-negative-weight kinds, superposition for linear kinds, constant reproduction; the impulse response of every kind at EVERY length 1..=254 is enumerated and compared with the documented weight profile (a linear shift-invariant filter is determined by it).",
+   note="Trusted: closed-form profiles in props/c15.rs; allowance of DESIGN 4.2. Non-linear kinds (SMM, Vidya) are compared only under float-exact transformations.",
+   ref="DESIGN.md §5 C15"),
 }
 
 PENDING = {
